@@ -77,8 +77,22 @@ func c03Profiles(quick bool) []*bworld.Profile {
 		}
 	}
 	s0, s1 := stalled("c03-unbuffered-terminal", 0), stalled("c03-one-slot-terminal", 1)
+	/* A Read that is pending when the stream's Connect call returns stays
+	pending (net/http's does) and is handed one more chunk: the stream has
+	ended, nothing of it is shown, whoever is attached by then. */
+	late := &bworld.Profile{
+		Name:        "c03-late-chunk",
+		OchCap:      1024,
+		LateOut:     true,
+		Starts:      []bworld.StartSpec{{Kind: "out", Key: "k", Max: 2}, {Kind: "in", Key: "k", Max: 1}},
+		Outs:        []bworld.OutSpec{{Data: "<chunk#>"}, {Data: "<chunk#>", Err: "eof"}},
+		MaxAttempts: 3,
+		MaxOuts:     2,
+		Cancel:      true,
+		Oracles:     []string{"C03"},
+	}
 	if quick {
-		return []*bworld.Profile{&chunks, &sizes, s0, s1}
+		return []*bworld.Profile{&chunks, &sizes, s0, s1, late}
 	}
 	chunks.MaxOuts = 4
 	sizes.MaxOuts = 4
@@ -86,7 +100,7 @@ func c03Profiles(quick bool) []*bworld.Profile {
 	s1.MaxOuts, s1.MaxConsume = 5, 10
 	s0.Starts = append(s0.Starts, bworld.StartSpec{Kind: "in", Key: "k", Max: 1})
 	s0.MaxAttempts = 2
-	return []*bworld.Profile{&chunks, &sizes, s0, s1}
+	return []*bworld.Profile{&chunks, &sizes, s0, s1, late}
 }
 
 func c03(r *ev.Result, tier string) {
